@@ -78,7 +78,10 @@ def run_case(c):
         from geneticengine.representations.tree.initializations import ProgressivelyTerminalDecider
 
         src = mk_src(c["src"])
-        dec = ProgressivelyTerminalDecider(src, None)
+        # BaseDecider.random_int is inherited unchanged by every tree decider; the decider needs no grammar for it
+        # (its constructor validates the grammar since the repair of F38, so it is not called)
+        dec = object.__new__(ProgressivelyTerminalDecider)
+        dec.random, dec.grammar = src, None
         return guarded(lambda: dec.random_int(c["lo"], c["hi"]))
     if op in ("dsgeint", "dsgebool"):
         from geneticengine.representations.grammatical_evolution.dynamic_structured_ge import (
